@@ -2731,10 +2731,14 @@ impl Archive {
         let file_size = self.reader.get_ref().metadata()?.len();
 
         // Calculate expected archive end position
-        let archive_end = self.archive_offset + self.header.get_archive_size();
+        // (the V2+ archive size is a full 64-bit header field: a sum that does not fit is
+        // beyond any file)
+        let archive_end = self
+            .archive_offset
+            .saturating_add(self.header.get_archive_size());
 
         // Check if there's enough space for a strong signature after the archive
-        if file_size < archive_end + STRONG_SIGNATURE_SIZE as u64 {
+        if file_size < archive_end.saturating_add(STRONG_SIGNATURE_SIZE as u64) {
             log::debug!("File too small for strong signature");
             return Ok(SignatureStatus::None);
         }
